@@ -147,6 +147,18 @@ func vqReadAll(t *testing.T) [][]byte {
 	return all
 }
 
+// the character classes of algo are process-global and filled by algo.Init (fzf calls it from postProcessOptions);
+// the word / non-word split the boundary term relies on is the same in every scheme
+func vqInit(t *testing.T) {
+	scheme := os.Getenv("VERIF_SCHEME")
+	if scheme == "" {
+		scheme = "default"
+	}
+	if !algo.Init(scheme) {
+		t.Fatal("unknown scheme " + scheme)
+	}
+}
+
 func vqWorkers() int {
 	n := runtime.GOMAXPROCS(0)
 	if n > 8 {
@@ -183,6 +195,7 @@ func vqParallel(n int, f func(worker int, i int)) {
 // TestVerifQueryChars binds the symbol tables of FzfChars (Lower, Norm, IsSpace, word class) to the real functions:
 // one case per symbol, answered with what unicode / algo say about the character it denotes.
 func TestVerifQueryChars(t *testing.T) {
+	vqInit(t)
 	out := verifOpenOut(t)
 	defer out.Close()
 	verifReadCases(t, func(line []byte) error {
@@ -209,6 +222,7 @@ func TestVerifQueryChars(t *testing.T) {
 // ---------------------------------------------------------------------------------------------------- E, in-package
 
 func TestVerifQueryReplay(t *testing.T) {
+	vqInit(t)
 	out := verifOpenOut(t)
 	defer out.Close()
 	universes := vqLoadUniverses(t)
@@ -395,6 +409,7 @@ type vqInput struct {
 }
 
 func TestVerifQueryRecord(t *testing.T) {
+	vqInit(t)
 	out := verifOpenOut(t)
 	defer out.Close()
 	inputs := vqReadAll(t)
